@@ -37,6 +37,7 @@ func copyFacts(_ string, p *pkgFiles, f *facts) {
 	var intsCarved, floatsCarved []string
 	chunkSizes := map[string]string{}
 	carvedVar := map[string]string{} // local var -> chunk:field
+	elems := map[string]string{}     // map field -> how its elements are filled
 	if cp != nil {
 		ast.Inspect(cp.Body, func(n ast.Node) bool {
 			switch x := n.(type) {
@@ -70,6 +71,24 @@ func copyFacts(_ string, p *pkgFiles, f *facts) {
 						carvedVar[dst] = chunk + ":" + field
 						if strings.HasPrefix(dst, "solution.") {
 							how[strings.SplitN(strings.TrimPrefix(dst, "solution."), "[", 2)[0]] = "carved-per-expression:" + chunk
+						}
+					}
+				}
+				// solution.M[k]… = rhs : how the ELEMENTS of a map field are filled (deep: rhs is a .Copy() call)
+				if len(x.Lhs) == 1 && len(x.Rhs) == 1 {
+					l := p.src(x.Lhs[0])
+					if strings.HasPrefix(l, "solution.") && strings.Contains(l, "[") {
+						fld := strings.SplitN(strings.TrimPrefix(l, "solution."), "[", 2)[0]
+						r := p.src(x.Rhs[0])
+						kind := "assigned"
+						switch {
+						case strings.HasSuffix(r, ".Copy()"):
+							kind = "deep"
+						case r == "nil" || strings.HasPrefix(r, "make("):
+							kind = ""
+						}
+						if kind != "" && !strings.Contains(elems[fld], kind) {
+							elems[fld] += "+elems:" + kind
 						}
 					}
 				}
@@ -115,6 +134,14 @@ func copyFacts(_ string, p *pkgFiles, f *facts) {
 					}
 				}
 			case *ast.ExprStmt:
+				// anyCopyHelper(solution.M, s.M): a map filled by a generic helper copies the values as they are
+				if call, ok := x.X.(*ast.CallExpr); ok && len(call.Args) >= 1 {
+					if a0 := p.src(call.Args[0]); strings.HasPrefix(a0, "solution.") && !strings.Contains(p.src(call.Fun), "solution.") {
+						fld := strings.SplitN(strings.TrimPrefix(a0, "solution."), "[", 2)[0]
+						fld = strings.SplitN(fld, ".", 2)[0]
+						elems[fld] += "+elems:helper(" + p.src(call.Fun) + ")"
+					}
+				}
 				// solution.X.add(copy…)
 				if call, ok := x.X.(*ast.CallExpr); ok {
 					s := p.src(call.Fun)
@@ -138,7 +165,15 @@ func copyFacts(_ string, p *pkgFiles, f *facts) {
 		if h == "" {
 			h = "NOT-HANDLED"
 		}
-		rows = append(rows, []string{nm, strings.SplitN(fl, ":", 2)[1], h})
+		if h == "fresh-make" {
+			h += elems[nm]
+		}
+		ty := strings.SplitN(fl, ":", 2)[1]
+		holds := "plain"
+		if strings.Contains(ty, "Copier") {
+			holds = "holds-copiers"
+		}
+		rows = append(rows, []string{nm, ty, h, holds})
 	}
 	sort.Slice(rows, func(i, j int) bool { return rows[i][0] < rows[j][0] })
 	f.recs["copyFields"] = rows
